@@ -80,10 +80,18 @@ class Trace:
         # results
         self.results = []
         order = {nm: i for i, nm in enumerate(tr.gen.origin)}
-        for nm in sorted(tr.finals, key=lambda n: order.get(n, 1 << 30)):
+        entries = []
+        for nm in tr.finals:
             val, clc = tr.finals[nm]
-            self.results.append({"name": nm, "lc": dict(clc), "t": nm[1], "value": val % self.p,
-                                 "desc": tr.gen.origin.get(nm, {})})
+            entries.append((tr.gen.var_site.get((nm, ()), 10 ** 9 + order.get(nm, 0)), nm, nm[1], val, clc,
+                            tr.gen.origin.get(nm, {})))
+        for (nm, rstack), (val, clc) in getattr(tr, "region_vars", {}).items():
+            if any(tr.region_dead.get(r) for r in rstack):
+                continue       # values computed under a false guard are not meant to be determined
+            entries.append((tr.gen.var_site.get((nm, rstack), 10 ** 9), "%s@%s" % (nm, "/".join("%d%s" % r for r in rstack)),
+                            nm[1], val, clc, tr.gen.origin_r.get((nm, rstack), {})))
+        for site, nm, t, val, clc, desc in sorted(entries, key=lambda e: (e[0], e[1])):
+            self.results.append({"name": nm, "lc": dict(clc), "t": t, "value": val % self.p, "desc": desc})
         self.sites = tr.gen.sites
 
     @staticmethod
@@ -160,7 +168,7 @@ class Attack:
         return out
 
     # -- forward re-derivation of dependent hints
-    def repair(self, a, frozen, max_steps=200):
+    def repair(self, a, frozen, max_steps=200, allowed=None):
         t = self.t
         p = self.p
         frozen = set(frozen)
@@ -176,7 +184,8 @@ class Attack:
                 return True
             x, y, z = t.cons[bad]
             unknowns = sorted({k for part in (x, y, z) for k in part
-                               if k < 0 and k not in frozen and k not in t.operands})
+                               if k < 0 and k not in frozen and k not in t.operands
+                               and (allowed is None or k in allowed)})
             if not unknowns:
                 return False
             fixed = False
@@ -276,7 +285,7 @@ class Attack:
                 return ("nonboolean", r, v)
         return ("same", None, None)
 
-    def try_lie(self, lies, do_repair=True):
+    def try_lie(self, lies, do_repair=True, allowed=None):
         a = dict(self.base)
         a.update(lies)
         if do_repair:
@@ -286,7 +295,7 @@ class Attack:
             if all(self.t.con_ok(ci, a) for ci in touched):
                 ok = True
             else:
-                ok = self.repair(a, frozen=set(lies))
+                ok = self.repair(a, frozen=set(lies), allowed=allowed)
             if not ok:
                 return None, a
         return self.verdict(a), a
